@@ -7,6 +7,7 @@ import (
 	"sort"
 	"strings"
 	"sync"
+	"sync/atomic"
 	"time"
 
 	"github.com/volatiletech/authboss/v3"
@@ -200,6 +201,28 @@ func rowOf(u authboss.User) *Row {
 
 var errInjected = errors.New("sim: injected backend failure")
 
+// injectedErr is what a failing storage call returns. Real stores fail in
+// different shapes: a plain error, a query time limit or a cancelled driver
+// context (errors wrapping the context errors although the request itself is
+// alive), a network timeout. The shape rotates with the number of failures.
+func (w *World) injectedErr() error {
+	switch atomic.AddInt64(&w.errN, 1) % 4 {
+	case 1:
+		return errInjected
+	case 2:
+		return fmt.Errorf("sim: query time limit reached: %w", context.DeadlineExceeded)
+	case 3:
+		return fmt.Errorf("sim: driver: %w", context.Canceled)
+	}
+	return simTimeout{}
+}
+
+type simTimeout struct{}
+
+func (simTimeout) Error() string   { return "sim: i/o timeout talking to the database" }
+func (simTimeout) Timeout() bool   { return true }
+func (simTimeout) Temporary() bool { return true }
+
 type rmToken struct{ pid, hash string }
 
 // DB is the simulated database. Copy semantics on every boundary; every call
@@ -313,7 +336,7 @@ func (d *DB) canon() string {
 func (d *DB) Load(ctx context.Context, key string) (authboss.User, error) {
 	switch d.seam("db.Load", key) {
 	case faultErr:
-		return nil, errInjected
+		return nil, d.w.injectedErr()
 	case faultNotFound:
 		return nil, authboss.ErrUserNotFound
 	}
@@ -328,7 +351,7 @@ func (d *DB) Save(ctx context.Context, user authboss.User) error {
 	r := rowOf(user)
 	switch d.seam("db.Save", r.PID) {
 	case faultErr:
-		return errInjected
+		return d.w.injectedErr()
 	case faultNotFound:
 		return authboss.ErrUserNotFound
 	}
@@ -350,7 +373,7 @@ func (d *DB) Create(ctx context.Context, user authboss.User) error {
 	r := rowOf(user)
 	switch d.seam("db.Create", r.PID) {
 	case faultErr:
-		return errInjected
+		return d.w.injectedErr()
 	case faultFound:
 		return authboss.ErrUserFound
 	}
@@ -369,7 +392,7 @@ func (d *DB) Create(ctx context.Context, user authboss.User) error {
 func (d *DB) LoadByConfirmSelector(ctx context.Context, selector string) (authboss.ConfirmableUser, error) {
 	switch d.seam("db.LoadByConfirmSelector", "") {
 	case faultErr:
-		return nil, errInjected
+		return nil, d.w.injectedErr()
 	case faultNotFound:
 		return nil, authboss.ErrUserNotFound
 	}
@@ -388,7 +411,7 @@ func (d *DB) LoadByConfirmSelector(ctx context.Context, selector string) (authbo
 func (d *DB) LoadByRecoverSelector(ctx context.Context, selector string) (authboss.RecoverableUser, error) {
 	switch d.seam("db.LoadByRecoverSelector", "") {
 	case faultErr:
-		return nil, errInjected
+		return nil, d.w.injectedErr()
 	case faultNotFound:
 		return nil, authboss.ErrUserNotFound
 	}
@@ -406,7 +429,7 @@ func (d *DB) LoadByRecoverSelector(ctx context.Context, selector string) (authbo
 
 func (d *DB) AddRememberToken(ctx context.Context, pid, token string) error {
 	if d.seam("db.AddRememberToken", pid) == faultErr {
-		return errInjected
+		return d.w.injectedErr()
 	}
 	d.mu.Lock()
 	defer d.mu.Unlock()
@@ -416,7 +439,7 @@ func (d *DB) AddRememberToken(ctx context.Context, pid, token string) error {
 
 func (d *DB) DelRememberTokens(ctx context.Context, pid string) error {
 	if d.seam("db.DelRememberTokens", pid) == faultErr {
-		return errInjected
+		return d.w.injectedErr()
 	}
 	d.mu.Lock()
 	defer d.mu.Unlock()
@@ -433,7 +456,7 @@ func (d *DB) DelRememberTokens(ctx context.Context, pid string) error {
 func (d *DB) UseRememberToken(ctx context.Context, pid, token string) error {
 	switch d.seam("db.UseRememberToken", pid) {
 	case faultErr:
-		return errInjected
+		return d.w.injectedErr()
 	case faultNotFound:
 		return authboss.ErrTokenNotFound
 	}
@@ -450,7 +473,7 @@ func (d *DB) UseRememberToken(ctx context.Context, pid, token string) error {
 
 func (d *DB) NewFromOAuth2(ctx context.Context, provider string, details map[string]string) (authboss.OAuth2User, error) {
 	if d.seam("db.NewFromOAuth2", provider) == faultErr {
-		return nil, errInjected
+		return nil, d.w.injectedErr()
 	}
 	uid := details["uid"]
 	pid := authboss.MakeOAuth2PID(provider, uid)
@@ -466,7 +489,7 @@ func (d *DB) NewFromOAuth2(ctx context.Context, provider string, details map[str
 func (d *DB) SaveOAuth2(ctx context.Context, user authboss.OAuth2User) error {
 	r := rowOf(user)
 	if d.seam("db.SaveOAuth2", r.PID) == faultErr {
-		return errInjected
+		return d.w.injectedErr()
 	}
 	r.PID = authboss.MakeOAuth2PID(r.OAuth2Provider, r.OAuth2UID)
 	d.put(r)
